@@ -53,6 +53,10 @@ def one_case(rng, tier):
     svc = g._svc()
     if rng.random() < 0.7 and svc == [0]:
         svc = [rng.choice([0.5, 1.0, 2.0])]
+    if rng.random() < 0.15:
+        # a one-shot consumer next to the main one (connected first): it removes itself from the pipeline inside one of its
+        # calls, i.e. while the node is handing an element to its consumers
+        nodes.append({'id': 'os', 'op': 'sink', 'ups': [last], 'kind': 'sync', 'svc': [0], 'detach_at': rng.choice([0, 0, 1, 2])})
     nodes.append({'id': 'sk', 'op': 'sink', 'ups': [last], 'kind': rng.choice(['coro', 'future', 'sync', 'tornado', 'awaitable']), 'svc': svc})
     prog = {'nodes': nodes, 'extra_edges': []}
     prods = []
@@ -112,7 +116,9 @@ def check_case(case, counters, sets):
     ar.interesting = len(dl) < len(arr) or len(arr) >= 3
     sets.setdefault('interleaving_signatures', set()).add(asyncrun.signature(ar.log))
     counters['events_observed'] = counters.get('events_observed', 0) + len(ar.log.ev)
-    if any(e[2] == 'EDIT' for e in ar.log.ev):
+    if any(e[2] == 'EDIT' and e[4] == 'self-detach' for e in ar.log.ev):
+        counters['runs_with_a_consumer_detaching_itself_during_delivery'] = counters.get('runs_with_a_consumer_detaching_itself_during_delivery', 0) + 1
+    if any(e[2] == 'EDIT' and e[4] != 'self-detach' for e in ar.log.ev):
         counters['runs_with_disconnect_of_the_input'] = counters.get('runs_with_disconnect_of_the_input', 0) + 1
     counters['elements_skipped_by_latest'] = counters.get('elements_skipped_by_latest', 0) + max(0, len(arr) - len(dl))
     ar.arr, ar.dl = arr, dl
